@@ -95,9 +95,12 @@ fn drive_sessions(c: &Ctx) -> Vec<Sess> {
             // small structural regions (budgeted) and a position sample.  thorough: every position for the
             // primary API of the main files, every 4th position for the other APIs, a larger sample for the
             // one-column-per-type IPC files
-            let typed = f.name.starts_with('t') && f.name[1..].chars().all(|c| c.is_ascii_digit());
+            // "typed": files that only get a sample in the thorough tier (one-column-per-type IPC files, the
+            // second half of the Parquet encoding / codec grid)
+            let typed = (f.name.starts_with('t') && f.name[1..].chars().all(|c| c.is_ascii_digit()))
+                || (f.fmt == "parquet" && ["dict_brotli", "delta_lz4", "dict_lz4raw", "bss_plain"].contains(&f.name.as_str()));
             let primary = *api == files::apis(f.fmt)[0] || (f.fmt == "parquet" && *api == "metadata");
-            let budget = if c.thorough { 150 } else { 28 };
+            let budget = if c.thorough { 100 } else { 28 };
             let mut positions: Vec<usize> = vec![];
             if (n <= 300 && primary) || (c.thorough && !typed && primary) {
                 positions.extend(0..n);
@@ -303,6 +306,7 @@ fn finish_event(mut ev: Value, outcome: &str, wher: &str, msg: &str, o: Option<&
                         let nos: Vec<String> = vec![];
                         m.insert("cols".into(), json!(none));
                         m.insert("schema".into(), json!(none));
+                        m.insert("decl".into(), json!(none));
                         m.insert("lens".into(), json!(none));
                         m.insert("types".into(), json!(nos));
                     }
